@@ -231,6 +231,16 @@ func c10Ops() []c10Op {
 			_ = goerrors.SuggestionCacheSize()
 			return x + errDigest(err2)
 		}},
+		{"hints", func(s string) string {
+			// keyword suggestions for misspelt words (what every "expected X, got Y" error computes): a pure function of
+			// the word, whoever else asks at the same time
+			var out []string
+			for k := 0; k < 4; k++ {
+				w := c10Typos[(len(s)*7+k*13)%len(c10Typos)]
+				out = append(out, w+"->"+goerrors.SuggestKeyword(w))
+			}
+			return strings.Join(out, ",")
+		}},
 		{"config", func(s string) string {
 			cfg, err := config.LoadFromFileCached(c10ConfigPath)
 			if err != nil {
@@ -243,6 +253,9 @@ func c10Ops() []c10Op {
 		}},
 	}
 }
+
+var c10Typos = []string{"SELCT", "FORM", "WHER", "GROPU", "ODER", "INSRT", "UPDTE", "DELTE", "JION", "HAVNG", "LIMT", "OFSET", "UNOIN", "VALUS", "CRATE", "TABEL", "WXYZALTER", "DISTINT", "BETWEN", "EXSITS",
+	"INTERSCT", "EXCPT", "RETURNNG", "CASCAD", "PRIMRY", "FOREGN", "REFERNCES", "CONSTRANT", "DEFALT", "UNIQE", "INDX", "VEIW", "TRUNCAT", "MERG", "MATCHD", "RECURSVE", "LATERL", "NATRAL", "PARTITON", "PRECEDNG"}
 
 var c10Shared atomic.Bool
 var c10SharedOnce sync.Once
@@ -299,12 +312,16 @@ func c10Mix(a *ChildArgs) {
 	a.Rec.Count("table_entries", int64(len(table)))
 	c10Shared.Store(true)
 	defer c10Shared.Store(false)
+	// the table run has filled the process-wide suggestion cache: empty it, so that the goroutines meet the
+	// computation behind it and not only its memo
+	goerrors.ClearSuggestionCache()
 	var clock int64
 	type span struct {
 		op         int
 		start, end int64
 	}
 	for _, ng := range []int{2, 16, 64} {
+		goerrors.ClearSuggestionCache()
 		perG := 1500 / ng
 		if !a.Quick() {
 			perG = 12000 / ng
